@@ -168,17 +168,39 @@ class MatchesSetwise:
         self.matchers = matchers
 
     def match(self, observed):
-        remaining_matchers = set(self.matchers)
-        not_matched = []
-        for value in observed:
-            for matcher in remaining_matchers:
-                if matcher.match(value) is None:
-                    remaining_matchers.remove(matcher)
-                    break
-            else:
-                not_matched.append(value)
+        matchers = list(self.matchers)
+        values = list(observed)
+        # Find a maximum one-to-one assignment of values to matchers with
+        # augmenting paths.  Picking the first matcher that happens to match
+        # (in set order) made the verdict depend on hash order and rejected
+        # inputs for which an assignment exists.
+        verdicts = {}
+
+        def matches(m, v):
+            if (m, v) not in verdicts:
+                verdicts[m, v] = matchers[m].match(values[v]) is None
+            return verdicts[m, v]
+
+        assigned = {}
+
+        def assign(v, seen):
+            for m in range(len(matchers)):
+                if m in seen or not matches(m, v):
+                    continue
+                seen.add(m)
+                if m not in assigned or assign(assigned[m], seen):
+                    assigned[m] = v
+                    return True
+            return False
+
+        for v in range(len(values)):
+            assign(v, set())
+        matched_values = set(assigned.values())
+        not_matched = [values[v] for v in range(len(values)) if v not in matched_values]
+        remaining_matchers = [
+            matchers[m] for m in range(len(matchers)) if m not in assigned
+        ]
         if not_matched or remaining_matchers:
-            remaining_matchers = list(remaining_matchers)
             # There are various cases that all should be reported somewhat
             # differently.
 
